@@ -228,6 +228,7 @@ func propC10(w *World, r *Report) {
 		return
 	}
 	r.Check(cleanupCall.Block().Dominates(hcCall.Block()), "D4", "the clean-up dominates the first handleConn call (runs on every path before serving)", w.InstrPos(cleanupCall), "")
+	checkCleanupOnlyAtStartup(w, r, "D4")
 	argT := newTermEnv(w).termOf(cleanupCall.Call.Args[0]).String()
 	r.Check(strings.HasPrefix(argT, "main.Config.OutputDir@"), "D4", "the clean-up runs on the configured output directory", w.InstrPos(cleanupCall), argT)
 	okErr := false
@@ -653,4 +654,97 @@ func checkWriterField(w *World, r *Report, T *types.Named, wfield int, start, st
 		}
 	}
 	r.Check(n >= 3, "G4", "stores to the writer field found", "-", fmt.Sprint(n))
+}
+
+// checkCleanupOnlyAtStartup: the function that removes every in-progress recording file (glob + remove) has exactly one
+// call site in the whole repository - the start-up call in the function that serves connections. Called from anywhere
+// else (a recorder method, the frame loop) it would unlink the open temporary file of a recording that is being written
+// by ANOTHER recorder: that file's frames then land in no file.
+func checkCleanupOnlyAtStartup(w *World, r *Report, rule string) {
+	hci := analyseHandleConn(w)
+	if hci.err != nil {
+		r.Unknown(rule, "connection handler", "-", hci.err.Error())
+		return
+	}
+	var runMain *ssa.Function
+	if cs := w.callersOf(hci.fn); len(cs) == 1 {
+		runMain = cs[0]
+	}
+	if runMain == nil {
+		r.Unknown(rule, "start-up function", "-", "the connection handler does not have exactly one caller")
+		return
+	}
+	var cleanups []*ssa.Function
+	for _, fn := range w.RepoFuncs() {
+		if fn.Pkg == runMain.Pkg && callsGlobAndRemoveAll(w, fn) {
+			cleanups = append(cleanups, fn)
+		}
+	}
+	if len(cleanups) == 0 {
+		r.Fail(rule, "start-up clean-up exists", "-", "no function of the recorder removes every file matched by a glob", "")
+		return
+	}
+	for _, cl := range cleanups {
+		n := 0
+		for _, f := range w.RepoFuncs() {
+			for _, b := range f.Blocks {
+				for _, in := range b.Instrs {
+					ci, ok := in.(ssa.CallInstruction)
+					if !ok || ci.Common().StaticCallee() != cl {
+						// also: the function used as a value (stored, passed) would escape this census
+						continue
+					}
+					n++
+					construct := "in-progress-file clean-up " + cl.Name() + " called from " + f.Name()
+					if f == runMain {
+						if _, isGo := in.(*ssa.Go); isGo {
+							r.Fail(rule, construct, w.InstrPos(in), "the clean-up runs concurrently with the connection loop", "")
+						} else {
+							r.Pass(rule, construct, w.InstrPos(in), "start-up path")
+						}
+					} else {
+						r.Fail(rule, construct, w.InstrPos(in), "the clean-up that unlinks every in-progress recording file is called outside start-up: the open temporary files of the other recorders (continuous, test) are deleted under them", "")
+					}
+				}
+			}
+		}
+		// not used as a first-class value
+		escaped := false
+		for _, f := range w.RepoFuncs() {
+			for _, b := range f.Blocks {
+				for _, in := range b.Instrs {
+					for _, op := range in.Operands(nil) {
+						if *op == ssa.Value(cl) {
+							if ci, ok := in.(ssa.CallInstruction); ok && ci.Common().Value == ssa.Value(cl) {
+								continue
+							}
+							escaped = true
+						}
+					}
+				}
+			}
+		}
+		r.Check(!escaped && n >= 1, rule, "clean-up "+cl.Name()+" is only ever called directly", w.Pos(cl.Pos()), fmt.Sprintf("%d call site(s)", n))
+	}
+}
+
+// callsGlobAndRemoveAll: the function removes, in a loop, the files matched by a glob (all of them).
+func callsGlobAndRemoveAll(w *World, fn *ssa.Function) bool {
+	if !callsGlobAndRemove(fn) {
+		return false
+	}
+	e := newTermEnv(w)
+	for _, b := range fn.Blocks {
+		for _, in := range b.Instrs {
+			c, ok := in.(*ssa.Call)
+			if !ok || calleeName(c) != "os.Remove" {
+				continue
+			}
+			t := e.termOf(c.Call.Args[0])
+			if t.Op == "index" && len(t.Args) == 2 && t.Args[1].Op == "rangeidx" {
+				return true
+			}
+		}
+	}
+	return false
 }
